@@ -54,6 +54,17 @@ class Check:
     def unsure(self, oid, rule, site, construct, why):
         self.obs.append(Obligation(oid, rule, site, construct, INCONCLUSIVE, why))
 
+    def expect_term(self, found, accepted, oid, rule, site, construct, why_ok='', why_bad='', extra_ok=True):
+        """canonical-term equality with a three-valued outcome: equal to an accepted form -> discharged; different but written
+        with the operations of the accepted forms -> violated; written with operations the accepted forms never use -> inconclusive"""
+        from .match import within_vocabulary
+        if found in accepted and extra_ok:
+            self.ok(oid, rule, site, construct, why_ok)
+        elif found in accepted or within_vocabulary(found, accepted):
+            self.bad(oid, rule, site, construct, why_bad or why_ok)
+        else:
+            self.unsure(oid, rule, site, construct, 'the expression uses operations outside the vocabulary of the accepted forms; ' + (why_bad or why_ok))
+
     def expect(self, cond, oid, rule, site, construct, why_ok='', why_bad='', inspected=1):
         if cond:
             self.ok(oid, rule, site, construct, why_ok, inspected)
